@@ -9,6 +9,11 @@ Dimension "observer calls": between construction and encoding, and between decod
 fields, the object is looked at with each of repr(), _debug_str(), str() (the ls-style long name the
 server puts in front of every READDIR entry) and asbytes(); looking must not change what is encoded
 or what was decoded.
+
+Dimension "extended key/value types": the extended map of every attribute set is also built with str keys
+and/or str values (what an application writes; the wire and the decoder use bytes), homogeneous and mixed
+within one map, and as "decoded map (bytes keys) + one pair added by the application with a str key"; the
+encoding must not raise and must decode to the same map (str standing for its UTF-8 bytes).
 """
 import itertools
 
@@ -29,7 +34,12 @@ META = {
             "Every attribute set additionally x observer call in {repr(), _debug_str(), str(), asbytes()} made "
             "(a) between construction and _pack - the encoding and _flags must equal those of the unobserved "
             "object - and (b) between _unpack and reading the fields - fields and _flags must equal those of "
-            "the unobserved decoded object.",
+            "the unobserved decoded object.  Every attribute set with extended attributes additionally x "
+            "key/value types of the map in {str keys, str values, str keys+values, keys alternating bytes/str, "
+            "keys alternating str/bytes (str where the bytes are UTF-8, else bytes stay), really decoded map "
+            "(bytes keys) + one application pair with a str key and str value, the same with the str pair inserted "
+            "first}: _pack must not raise and the reference decoder and the real decoder must return the same "
+            "map (str = its UTF-8 bytes); wire order of the pairs is not judged.",
     "note": "extended attributes use bytes keys/values (the wire type); presence is judged per group "
             "(uid+gid, atime+mtime); float times may be truncated or rounded",
     "design_ref": "4/C33",
@@ -272,7 +282,8 @@ def run_case(a):
         rt_bad = ("exception-" + type(e).__name__, "")
         info["roundtrip_error"] = repr(e)
     if rt_bad is None and pack_bad is None and unpack_bad is None:
-        return repack_check(full, a, lenient, info) or observer_check(full, a, lenient, wire, at._flags, info)
+        return (repack_check(full, a, lenient, info) or observer_check(full, a, lenient, wire, at._flags, info)
+                or exttype_check(full, a, lenient, wire, info))
     # attribute to a site
     if pack_bad is not None and unpack_bad is None:
         clause, cls = pack_bad
@@ -397,6 +408,96 @@ def observer_check(full, eff, lenient, wire, flags, info):
     return None
 
 
+def _s(b, want_str):
+    """b as str when asked and possible (UTF-8), else unchanged."""
+    if not want_str:
+        return b
+    try:
+        return b.decode("utf-8")
+    except UnicodeDecodeError:
+        return b
+
+
+# type pattern of the extended map -> (key is str?, value is str?) for the i-th pair
+EXT_TYPINGS = [
+    ("str-keys", lambda i: (True, False)),
+    ("str-values", lambda i: (False, True)),
+    ("str-keys-and-values", lambda i: (True, True)),
+    ("keys-alternating-bytes-str", lambda i: (i % 2 == 1, False)),
+    ("keys-alternating-str-bytes", lambda i: (i % 2 == 0, False)),
+]
+APP_PAIR = ("app@verif", "\u00e9v")      # what an application adds: str key, str (non-ASCII) value
+APP_PAIR_WIRE = (APP_PAIR[0].encode("utf-8"), APP_PAIR[1].encode("utf-8"))
+
+
+def exttype_check(full, eff, lenient, wire, info):
+    """The extended map with other key/value types than all-bytes: encodable, and decodes to the same map."""
+    if "ext" not in full:
+        return None
+    variants = []
+    for name, typ in EXT_TYPINGS:
+        pairs = []
+        for i, (k, v) in enumerate(full["ext"]):
+            ks, vs = typ(i)
+            pairs.append((_s(k, ks), _s(v, vs)))
+        if all(isinstance(k, bytes) and isinstance(v, bytes) for k, v in pairs):
+            continue        # nothing decodable: same as the plain case
+        if len({k if isinstance(k, bytes) else k.encode("utf-8") for k, _ in pairs}) != len(pairs):
+            continue
+        variants.append((name, None, pairs, eff))
+    if APP_PAIR_WIRE[0] not in dict(full["ext"]):
+        grown = dict(eff, ext=list(full["ext"]) + [APP_PAIR_WIRE])
+        variants.append(("decoded-bytes-keys-plus-application-str-key", "last", None, grown))
+        variants.append(("application-str-key-plus-decoded-bytes-keys", "first", None, grown))
+    for name, app, pairs, want in variants:
+        try:
+            if app is None:
+                at = to_obj(dict(full, ext=pairs))
+            else:
+                at = SFTPAttributes._from_msg(GuardMessage(wire))       # keys as the real decoder leaves them
+                if app == "last":
+                    at.attr[APP_PAIR[0]] = APP_PAIR[1]
+                else:
+                    old = list(at.attr.items())
+                    at.attr.clear()
+                    at.attr[APP_PAIR[0]] = APP_PAIR[1]
+                    at.attr.update(old)
+            m = Message()
+            at._pack(m)
+            m.add_int(SENTINEL)
+            w2 = m.asbytes()
+        except Exception as e:
+            info["extended_types"] = name
+            info["pack_error"] = repr(e)
+            return "exception-" + type(e).__name__, "SFTPAttributes._pack", "extended-types=" + name, info
+        bad = None
+        site = "SFTPAttributes._pack"
+        try:
+            rd = R.Reader(w2)
+            bad = compare(want, REF.decode(rd), lenient)
+            if bad is None and rd.rest() != R.enc_uint32(SENTINEL):
+                bad = ("structure-length-wrong", "")
+        except ValueError:
+            bad = ("structure-length-wrong", "")
+        if bad is None:
+            site = "SFTPAttributes._pack+_unpack"
+            try:
+                got, tail_ok = unpack_real(w2)
+                bad = compare(want, got, lenient)
+                if bad is None and not tail_ok:
+                    bad = ("not-exactly-consumed", "")
+            except PastEnd:
+                bad = ("reads-past-end-of-structure", "")
+            except Exception as e:
+                bad = ("exception-" + type(e).__name__, "")
+                info["roundtrip_error"] = repr(e)
+        if bad is not None:
+            info["extended_types"] = name
+            info["wire_typed"] = w2.hex()
+            return bad[0], site, "extended-types=" + name + ((":" + bad[1]) if bad[1] else ""), info
+    return None
+
+
 def case_json(a):
     j = {}
     for k, v in a.items():
@@ -438,6 +539,8 @@ def work(item, acc):
         acc.count("mask_%02d" % sum(1 << k for k, g in enumerate(GROUPS) if g in eff))
         acc.count("repack_subcases", len(eff))
         acc.count("observer_subcases", 2 * 2 * len(OBSERVERS))
+        if "ext" in a:
+            acc.count("extended_type_subcases_max", len(EXT_TYPINGS) + 2)
         res = run_case(a)
         if "ext" in a:
             acc.count("cases_with_extended")
@@ -459,10 +562,12 @@ def main(tier):
         "or one value of the group's boundary domain (full cartesian product); each case is run through real "
         "_pack -> real _unpack, real _pack -> reference decoder, reference encoder -> real _unpack, and again with "
         "one observer call (repr, _debug_str, str, asbytes; object with and without a filename) before the "
-        "encoding / after the decoding; "
+        "encoding / after the decoding, and (sets with extended attributes) with the extended map built from str "
+        "keys / str values / mixed bytes and str keys / really decoded bytes keys plus an application str key; "
         "nontrivial = distinct attribute sets with at least one group present (all cases are distinct by "
         "construction; the all-absent set is the only trivial one)",
-        ["extended attribute keys/values are bytes (the wire type)",
+        ["extended attribute keys/values are bytes (the wire type) or str (judged as their UTF-8 bytes)",
+         "wire order of extended pairs not judged (a map)",
          "presence judged per group (uid+gid, atime+mtime); half-present groups not generated",
          "float times: truncation or rounding both accepted",
          "values outside the wire ranges (negative, >= 2^32 ids, >= 2^64 sizes) not generated"])
